@@ -33,7 +33,7 @@ pub broadcast group group_asref_std {
     ax_asref_vec_slice, ax_asref_vec_vec, ax_asref_slice_slice, ax_asref_array_slice, ax_asref_str_bytes, ax_asref_str_str,
     ax_asref_string_str, ax_asref_string_bytes, ax_asref_ref
 }
-pub broadcast group group_glue { group_asref_std, ax_str_bytes_inj, ax_iter_items_vec, ax_iter_items_copied_slice }
+pub broadcast group group_glue { group_asref_std, crate::p384::ax_asref_encoded_point, crate::generic_array::ax_asref_ga, ax_str_bytes_inj, ax_iter_items_vec, ax_iter_items_copied_slice }
 
 // ---- external std types ---------------------------------------------------------------------
 #[verifier::external_type_specification]
@@ -59,6 +59,10 @@ pub broadcast axiom fn ax_str_bytes_inj(a: &str, b: &str)
     ensures (#[trigger] a.spec_bytes() == #[trigger] b.spec_bytes()) ==> a@ == b@;
 
 pub fn runtime_assert(b: bool) requires b {}
+// <&[T; N]>::try_from(&[T]): Ok exactly when the slice has N elements
+pub assume_specification<'a, T, const N: usize> [<&'a [T; N] as TryFrom<&'a [T]>>::try_from] (s: &'a [T]) -> (r: Result<&'a [T; N], core::array::TryFromSliceError>)
+    ensures s@.len() == N <==> r is Ok, r is Ok ==> r->Ok_0@ == s@;
+
 
 // ---- str::split(c).collect() -----------------------------------------------------------------
 pub uninterp spec fn split_spec(s: Seq<char>, c: char) -> Seq<Seq<char>>;
